@@ -22,7 +22,7 @@ import sys
 from .. import canon
 from ..framework import Agg, job
 from ..sched import HarnessError, LineTracer, ReplayChooser, Scheduler, current, make_chooser
-from ..templates_c14 import SCHEMAS, TEMPLATES, render
+from ..templates_c14 import SCHEMAS, TEMPLATES, ZOO, ZOO_DIALECTS, render
 from ..util import digest, short, stream
 
 ID = "C14"
@@ -30,7 +30,7 @@ PRELOAD = ["sqllineage.runner", "sim.props.c14"]
 BUDGET_S = {"quick": 150.0, "thorough": 1500.0}
 ENVVAR = "SQLLINEAGE_DEFAULT_SCHEMA"
 ACC = [a for a in canon.ACCESSORS if a not in ("statements", "print_table", "print_column")]
-TPL = {t[0]: t for t in TEMPLATES}
+TPL = {t[0]: t for t in TEMPLATES + ZOO}
 
 DESCRIPTION = {
     "rule": (
@@ -180,6 +180,7 @@ def run_one(spec: dict) -> dict:
     events = []
     probes = {}
     viol = [None]
+    hint = [None]
     env_now = [pre]
     in_scoped = {}
 
@@ -212,6 +213,10 @@ def run_one(spec: dict) -> dict:
     def step(t, st):
         tid, S, mech = st["tpl"], st["S"], st["mech"]
         sched.yield_point("op", "analyse")
+        if "@" in tid and any(isinstance(v, dict) and "exception" in v for k_ in (f"{tid}|{S}", f"{tid}|None") for v in refs[k_].values()):
+            # this dialect does not take the bare or the qualified rendering: nothing to compare
+            probe("dialect_zoo_not_comparable")
+            return
         others = {v for k, v in in_scoped.items() if k != t.idx and v is not None}
         if mech == "scoped" and st.get("retry_after") is not None and not tid.startswith("corpus:"):
             # history on ONE runner object: a first evaluation under another default is interrupted at its second
@@ -287,6 +292,10 @@ def run_one(spec: dict) -> dict:
                 probe("no_default_placeholder")
         want = refs[f"{tid}|{eff}"]
         events.append([t.idx, tid, S, mech, short(got, 12)])
+        if got != want and viol[0] is None:
+            hint[0] = [t.idx, tid, S, mech]
+        if "@" in tid:
+            probe("dialect_zoo_compared")
         if got != want:
             k = [a for a in ACC if got.get(a) != want.get(a)]
             violate(
@@ -368,6 +377,8 @@ def run_one(spec: dict) -> dict:
         rr["violation"] = viol[0]
         sp = json.loads(json.dumps({k: v for k, v in spec.items() if k != "refs"}))
         sp["schedule"] = list(sched.schedule)
+        if hint[0] is not None:
+            sp["failing_step"] = hint[0]  # (for the minimiser only: which step's answer differed)
         rr["spec"] = sp
     return rr
 
@@ -433,10 +444,30 @@ def execute(arg):
 # driver side
 
 
-def compute_refs(pool) -> dict:
+def zoo_dialects_for(tier: str, seed: int) -> list:
+    """quick: a third of the dialect zoo per seed (rotating) plus the dialects pinned findings live in; thorough: all."""
+    if tier != "quick":
+        return list(ZOO_DIALECTS)
+    return [d for i, d in enumerate(ZOO_DIALECTS) if (i + seed) % 3 == 0 or d in ("redshift",)]
+
+
+def _needed(spec) -> set:
+    need = set()
+    pre = (spec.get("pre_env") or {}).get(ENVVAR)
+    for p in spec["threads"]:
+        for st in p:
+            for S in {st["S"], pre, None} | set(spec.get("operator") or []):
+                need.add((st["tpl"], S))
+    return need
+
+
+def compute_refs(pool, zoo_dialects=None, cases=None) -> dict:
     mod = sys.modules[__name__]
-    cases = [[t[0], S] for t in TEMPLATES for S in [None] + SCHEMAS + ["imp"]]
-    cases += [[f"corpus:{i}", S] for i in range(len(corpus())) for S in [None, "zz9", "s1", "imp"]]
+    zoo_dialects = ZOO_DIALECTS if zoo_dialects is None else zoo_dialects
+    if cases is None:
+        cases = [[t[0], S] for t in TEMPLATES for S in [None] + SCHEMAS + ["imp"]]
+        cases += [[f"corpus:{i}", S] for i in range(len(corpus())) for S in [None, "zz9", "s1", "imp"]]
+        cases += [[t[0], S] for t in ZOO if t[1] in zoo_dialects for S in [None, "s1", "used"]]
     chunks = [cases[i::16] for i in range(16)]
     jobs = [{"key": {"hash_seed": 0, "env": {}}, "module": mod.__name__, "fn": "reference", "arg": {"specs": [{"cases": c}]}, "wall_s": 300.0} for c in chunks if c]
     refs = {}
@@ -518,9 +549,10 @@ def gen(seed) -> dict:
     }
 
 
-def sweep() -> list[dict]:
+def sweep(zoo_dialects=None) -> list[dict]:
     """Every template under every lifetime x mechanism (single thread, no pre-emption)."""
     out = []
+    zoo_dialects = ZOO_DIALECTS if zoo_dialects is None else zoo_dialects
     n = 0
     for pre in (None, "imp"):
         for tid, _d, _s in TEMPLATES:
@@ -535,6 +567,16 @@ def sweep() -> list[dict]:
             n += 1
             out.append({"seed": 9000 + n, "pre_env": ({ENVVAR: pre} if pre else {}), "hash_seed": 0, "threads": [progs], "operator": [],
                         "sched": "sticky", "line": False})
+    for d in zoo_dialects:
+        zt = [t[0] for t in ZOO if t[1] == d]
+        for half in (zt[0::2], zt[1::2]):
+            progs = []
+            for tid in half:
+                progs.append({"tpl": tid, "S": "s1", "mech": "scoped"})
+                progs.append({"tpl": tid, "S": "used", "mech": "env"})
+                progs.append({"tpl": tid, "S": None, "mech": "none"})
+            n += 1
+            out.append({"seed": 9000 + n, "pre_env": {}, "hash_seed": 0, "threads": [progs], "operator": [], "sched": "sticky", "line": False, "zoo_sweep": True})
     n_c = len(corpus())
     for pre in (None, "imp"):
         for lo in range(0, n_c, 40):
@@ -553,10 +595,12 @@ def sweep() -> list[dict]:
 
 def search(pool, tier: str, seed: int, deadline: float, agg: Agg) -> None:
     mod = sys.modules[__name__]
-    refs = compute_refs(pool)
+    zd = zoo_dialects_for(tier, seed)
+    refs = dict(getattr(search, "refs", None) or {})
+    refs.update(compute_refs(pool, zoo_dialects=zd))
     search.refs = refs
     master = stream(seed, "c14-plan")
-    specs = sweep()
+    specs = sweep(zd)
     n = {"quick": 1300, "thorough": 40000}[tier]
     specs += [gen(master.randrange(2 ** 48)) for _ in range(n)]
     specs += [gen_sweep(master.randrange(2 ** 48)) for _ in range({"quick": 10, "thorough": 1000}[tier])]
@@ -589,8 +633,11 @@ def eval_many(pool, key, specs):
     mod = sys.modules[__name__]
     refs = getattr(search, "refs", None)
     if refs is None:
-        refs = compute_refs(pool)
-        search.refs = refs
+        refs = search.refs = {}
+    # (pinned inputs and replays are evaluated before / without a search: compute just the references they need)
+    missing = sorted({c for s in specs for c in _needed(s) if f"{c[0]}|{c[1]}" not in refs and (c[0] in TPL or c[0].startswith("corpus:"))}, key=str)
+    if missing:
+        refs.update(compute_refs(pool, cases=[list(c) for c in missing]))
     jobs = [job(mod, key_of(s), [_with_refs(s, refs)], 300.0) for s in specs]
     out = []
     for r in pool.run(jobs):
@@ -605,6 +652,19 @@ def pinned(entries):
 def shrink_candidates(spec):
     out = []
     cp = lambda: json.loads(json.dumps({k: v for k, v in spec.items() if k != "refs"}))
+    fs = spec.get("failing_step")
+    if fs and sum(len(p) for p in spec["threads"]) > 2 and fs[0] < len(spec["threads"]):
+        # first try: the one step whose answer differed, alone (then: that step after its predecessors only)
+        prog = spec["threads"][fs[0]]
+        idx = [j for j, st in enumerate(prog) if [st["tpl"], st["S"], st["mech"]] == fs[1:]]
+        if idx:
+            for keep in ([prog[idx[0]]], prog[:idx[0] + 1]):
+                s = cp()
+                s["threads"] = [keep]
+                s["schedule"] = []
+                s["operator"] = [] if len(keep) == 1 else s.get("operator", [])
+                s.pop("failing_step", None)
+                out.append(s)
     if len(spec["threads"]) > 1:
         for i in range(len(spec["threads"])):
             s = cp()
